@@ -22,10 +22,12 @@ package glob
 //@ ghost def inLimits(lo string, hi string, desc bool, s string) bool = (lo == "" && hi == "") || (!desc && !slt(s, lo) && slt(s, hi)) || (desc && !slt(lo, s) && slt(hi, s))
 
 //@ func getEsc
+//@   deterministic
 //@   nopanic
 //@   ensures err == nil ==> len(nchunk) > 0 && len(nchunk) < len(chunk0) && nchunk == chunk0[len(chunk0)-len(nchunk):]
 
 //@ func scanChunk
+//@   deterministic
 //@   nopanic
 //@   uses litpre.range, litpre.lit, litpre.meta
 //@   ensures len(pattern0) > 0 && pattern0[0] != '*' ==> !star && len(chunk) <= len(pattern0) && chunk == pattern0[0:len(chunk)] && litpre(pattern0) <= len(chunk)
@@ -33,6 +35,7 @@ package glob
 //@   loop 2 invariant 0 <= i && i <= len(pattern)
 
 //@ func matchChunk
+//@   deterministic
 //@   nopanic
 //@   uses litpre.range, litpre.lit, litpre.meta
 //@   ensures ok ==> agree(s0, chunk0, litpre(chunk0))
@@ -45,14 +48,19 @@ package glob
 //@   loop 2 invariant len(chunk0)-len(chunk) > litpre(chunk0)
 
 //@ func wildcardMatch
+//@   deterministic
 //@   nopanic
 //@   uses litpre.range, litpre.lit, litpre.meta, litpre.prefix
 //@   ensures matched && len(pattern0) > 0 && pattern0[0] != '*' ==> agree(name0, pattern0, litpre(pattern0))
 //@   loop 1 invariant (pattern == pattern0 && name == name0) || (len(pattern0) > 0 && pattern0[0] != '*' ==> agree(name0, pattern0, litpre(pattern0)))
 
+// Match is a function of its two arguments only: globMatches names "what it returns".
+//@ ghost func globMatches(p string, s string) bool
 //@ func Match
 //@   nopanic
+//@   deterministic
 //@   modifies nothing
+//@   ensures [def] matched == globMatches(pattern, str)
 //@   ensures matched && len(pattern) > 0 && pattern[0] != '*' ==> agree(str, pattern, litpre(pattern))
 
 //@ func Parse
